@@ -29,6 +29,8 @@ pub struct Mon {
     pub live_in_interval: Vec<bool>,
     pub ended_at_slot: Option<u64>,
     pub hs_done: bool,
+    pub pause_used: bool,
+    pub paused_slots: u64,
 }
 
 impl Timed {
@@ -72,12 +74,24 @@ impl Scenario for Timed {
         if w.peers[0].ended.get() || mon.slot >= self.intervals * self.slots.len() as u64 {
             return vec![];
         }
+        // a busy manager (Pause .. Resume, once per history, at most two slots long): the connection
+        // task that asks it something is held up across keep-alive deadlines
+        if w.manager_paused {
+            if mon.paused_slots >= 2 {
+                return vec!["Resume".to_string()];
+            }
+            return self.symbols.iter().filter(|s| **s != "Pause" && **s != "Rotate").map(|s| s.to_string()).collect();
+        }
         // before its handshake a peer can only stay silent or handshake (anything else is refused)
-        self.symbols.iter().filter(|s| mon.hs_done != (**s == "Handshake") || **s == "nothing").filter(|s| mon.hs_done || **s == "nothing" || **s == "Handshake").map(|s| s.to_string()).collect()
+        self.symbols.iter().filter(|s| **s != "Resume" && (**s != "Pause" || !mon.pause_used)).filter(|s| mon.hs_done != (**s == "Handshake") || **s == "nothing").filter(|s| mon.hs_done || **s == "nothing" || **s == "Handshake").map(|s| s.to_string()).collect()
     }
     fn concretize(&self, _w: &World, mon: &Mon, sym: &str) -> Vec<Ev> {
         let mut evs = vec![Ev::AdvanceTo(self.slot_time_ms(mon.slot))];
-        if sym == "Rotate" {
+        if sym == "Pause" {
+            evs.push(Ev::PauseManager);
+        } else if sym == "Resume" {
+            evs.push(Ev::ResumeManager);
+        } else if sym == "Rotate" {
             // a decision of the manager's choke rotation, not a message of the peer
             evs.push(Ev::Rotate);
         } else if sym == "Handshake" {
@@ -111,7 +125,18 @@ impl Scenario for Timed {
             if sym == "Handshake" {
                 mon.hs_done = true;
             }
+            if sym == "Pause" {
+                mon.pause_used = true;
+                mon.paused_slots = 0;
+            } else if w.manager_paused {
+                mon.paused_slots += 1;
+            }
             mon.slot += 1;
+        }
+        // a busy manager answers nothing and works off no KillReq: nothing is judged until the first
+        // slot after it resumed (the monitor above keeps counting)
+        if w.manager_paused {
+            return None;
         }
         let ticks_passed = now / 120_000;
         let ended = p.ended.get();
@@ -120,7 +145,9 @@ impl Scenario for Timed {
             mon.ended_at_slot = Some(mon.slot);
         }
         // (a) silence since last_live_ms: closed within three intervals (360 s), state released
-        if now >= mon.last_live_ms + 360_000 && (!ended || listed) {
+        // (not judged while the manager is busy: the task may be waiting for its answer, and a
+        // KillReq cannot be worked off; the verdict falls at the first slot after it resumed)
+        if now >= mon.last_live_ms + 360_000 && (!ended || listed) && !w.manager_paused {
             return Some((
                 "silent-peer-not-dropped",
                 format!("nothing but keep-alives since t={} s, now t={} s: connection task ended={}, manager still lists the peer={}", mon.last_live_ms / 1000, now / 1000, ended, listed),
@@ -152,7 +179,9 @@ impl Scenario for Timed {
             let written = p.msgs.iter().filter(|m| **m == Msg::KeepAlive).count() as u64;
             // on an incoming connection that has not handshaken yet the client owes (and may send)
             // nothing; keep-alives are demanded from the handshake on
-            let exempt = !self.outgoing && !mon.hs_done;
+            // (while the manager is busy a task waiting for its answer cannot emit; the overdue
+            // keep-alives must all be there at the first slot after it resumed)
+            let exempt = (!self.outgoing && !mon.hs_done) || w.manager_paused;
             if !exempt && written != ticks_passed {
                 return Some(("keep-alive-not-emitted-every-interval", format!("{} ticks passed (t={} s) but the client wrote {} keep-alives", ticks_passed, now / 1000, written)));
             }
@@ -162,7 +191,7 @@ impl Scenario for Timed {
     fn key(&self, w: &World, mon: &Mon) -> String {
         // byte counters are part of the key (they feed the rate statistics); the time of the last
         // live message matters only relative to the interval grid
-        format!("{} hs={} slot={} live={} liv={:?}", w.default_key(), mon.hs_done, mon.slot, mon.last_live_ms / 120_000 * 1000 + (mon.last_live_ms > 0) as u64, mon.live_in_interval.iter().all(|l| *l))
+        format!("{} hs={} slot={} live={} liv={:?} busy={}/{}/{}", w.default_key(), mon.hs_done, mon.slot, mon.last_live_ms / 120_000 * 1000 + (mon.last_live_ms > 0) as u64, mon.live_in_interval.iter().all(|l| *l), w.manager_paused, mon.pause_used, mon.paused_slots)
     }
 }
 
@@ -294,6 +323,7 @@ pub fn scenarios(thorough: bool) -> Vec<Timed> {
             // manager decisions (choke rotation) at any slot next to the peer's interest changes
             Timed { slots: vec![30, 90], symbols: vec!["nothing", "Interested", "NotInterested", "Rotate", "KeepAlive"], intervals: 8, handshaken: true, outgoing: true },
             Timed { slots: vec![60], symbols: vec!["nothing", "Interested", "Rotate", "KeepAlive", "Have"], intervals: 9, handshaken: true, outgoing: false },
+            Timed { slots: vec![30, 90], symbols: vec!["nothing", "Unchoke", "Choke", "Have", "Pause", "Resume"], intervals: 7, handshaken: true, outgoing: true },
         ]
     } else {
         vec![
@@ -304,6 +334,8 @@ pub fn scenarios(thorough: bool) -> Vec<Timed> {
             Timed { slots: vec![60], symbols: vec!["nothing", "Handshake", "KeepAlive", "Have"], intervals: 5, handshaken: false, outgoing: false },
             // manager decisions (choke rotation: Choke / Unchoke written by the client) at any slot
             Timed { slots: vec![60], symbols: vec!["nothing", "Interested", "Rotate", "KeepAlive"], intervals: 7, handshaken: true, outgoing: true },
+            // a busy manager holds the connection task up across keep-alive deadlines
+            Timed { slots: vec![60], symbols: vec!["nothing", "Unchoke", "Choke", "Pause", "Resume"], intervals: 8, handshaken: true, outgoing: true },
         ]
     }
 }
